@@ -12,7 +12,13 @@
      save: by induction an acknowledged change is never lost over any sequence of saves);
    * `partial_index_ignored` — incomplete index files are skipped, complete ones are all loaded, in
      name order.
-  Everything else C12 states (streams of completed imports under their old ids, tags re-converging)
+  The stream level is in Pk/Props/C12Idx.lean (model Pk/Model/RecoverIdx.lean: index files with their stream
+  ids, the file operations of an import and of a merge, `New` stacking complete files in name order and taking
+  the next id as the maximum over all of them): `import_crash_safe`, `merge_crash_safe` (at EVERY prefix of the
+  operation sequence every id is served in the same version as before / as after; needs the F18 condition,
+  `merge_not_suffix_counterexample`), `crash_cut_newest_only` (which cuts the harness may emulate),
+  `restart_ids_stable` (whole histories: no visible id is lost, none is handed out twice).
+  What remains with the experiments alone (tags re-converging, payload bytes of the recovered streams)
   is decided by the crash experiments of the scenario harness (`crashcheck`: second real manager on
   a copy of the data directory taken while all jobs are parked, optionally with one of the newest
   files cut short) — see level note: partial.
